@@ -472,6 +472,33 @@ pub fn run(mut run: Run) -> i32 {
             }
         }
     });
+    // ill-conditioned query points: every point of an ulp window around a point of a long slanted edge (top chain and bottom chain of the piece)
+    {
+        use crate::bigf::{self, next_up};
+        let tris: Vec<[(f64, f64); 3]> = vec![
+            [(-12.0, -12.0), (24.0, 24.0), (24.0, -12.0)], // slanted edge is the top chain
+            [(-12.0, -12.0), (24.0, 24.0), (-12.0, 24.0)], // slanted edge is the bottom chain
+            [(0.1, 0.3), (1234567.9, 7654321.3), (1234567.9, 0.3)],
+            [(-7.0, -21.0), (-70.0, -210.0), (0.0, -210.0)],
+        ];
+        let centres: Vec<(f64, f64)> = vec![(0.5, 0.5), (0.5, 0.5), (617284.0, 3827160.8), (-14.0, -42.0)];
+        let w: i64 = if quick { 24 } else { 96 };
+        let monos: Vec<MonotonicPolygons<f64>> = tris.iter().map(|t| MonotonicPolygons::from(Polygon::new(geo::LineString::from(vec![t[0], t[1], t[2], t[0]]), vec![]))).collect();
+        let ww = (w * w) as usize;
+        run.stage("monotone-ulp-windows", tris.len() * ww, |idx, acc| {
+            let (ti, k) = (idx / ww, (idx % ww) as i64);
+            let (i, j) = (k / w - w / 2, k % w - w / 2);
+            let c = (next_up(centres[ti].0, i), next_up(centres[ti].1, j));
+            let want = bigf::point_in_ring(&tris[ti], c) != 0;
+            acc.evals += 1;
+            acc.class(format!("monotone ulp window {} inside-or-boundary{}", ti, want));
+            acc.sample(idx, || json!({"triangle": format!("{:?}", tris[ti]), "query": [c.0, c.1], "exact": want}));
+            let got = monos[ti].intersects(&Coord { x: c.0, y: c.1 });
+            if got != want {
+                acc.viol("MonotonicPolygons::intersects differs from exact point location on an ulp window next to a slanted edge".into(), idx, || json!({"triangle": format!("{:?}", tris[ti]), "query": [c.0, c.1], "bits": format!("{:016x} {:016x}", c.0.to_bits(), c.1.to_bits()), "expected": want, "got": got}));
+            }
+        });
+    }
     // MultiPolygon inputs: member A (optionally with a hole touching its shell at a vertex) x member B translated over a window, kept when the pair is a
     // valid MultiPolygon (interiors disjoint, boundaries meeting at finitely many points): disjoint, interleaving in x, touching vertex-to-vertex,
     // touching vertex-to-edge (T-junction). Constrained Delaunay of the MultiPolygon tiles the union; stitching it back gives the same area and the
